@@ -507,3 +507,124 @@ func (o *Once) Do(f func()) {
 func (m *RWMutex) Held() bool { return m.w || m.readers > 0 }
 
 var _ = runtime.Gosched
+
+// Pool mirrors sync.Pool deterministically: items are reused last-in first-out (a real pool may
+// also drop items at any time; reuse is the interesting behaviour). Put(x) happens before the
+// Get that returns x.
+type Pool struct {
+	New   func() any
+	items []poolItem
+}
+
+type poolItem struct {
+	v  any
+	vc VC
+}
+
+func (p *Pool) Get() any {
+	if n := len(p.items); n > 0 {
+		it := p.items[n-1]
+		p.items = p.items[:n-1]
+		if S != nil && S.cur != nil {
+			S.cur.vc.join(&it.vc)
+		}
+		return it.v
+	}
+	if p.New != nil {
+		return p.New()
+	}
+	return nil
+}
+
+func (p *Pool) Put(x any) {
+	it := poolItem{v: x}
+	if S != nil && S.cur != nil {
+		it.vc = S.cur.vc
+		S.cur.vc[S.cur.ID]++
+	}
+	p.items = append(p.items, it)
+}
+
+// WaitGroup mirrors sync.WaitGroup (Wait parks the task until the counter is zero).
+type WaitGroup struct {
+	n       int
+	waiters []*Task
+	vc      VC
+}
+
+func (w *WaitGroup) Add(d int) {
+	w.n += d
+	if w.n < 0 {
+		fatal("sync: negative WaitGroup counter")
+	}
+	if w.n == 0 {
+		for _, t := range w.waiters {
+			if t.state == blocked {
+				t.state = ready
+			}
+		}
+		w.waiters = nil
+	}
+}
+
+func (w *WaitGroup) Done() {
+	if S != nil && S.cur != nil {
+		w.vc.join(&S.cur.vc)
+		S.cur.vc[S.cur.ID]++
+	}
+	w.Add(-1)
+}
+
+func (w *WaitGroup) Wait() {
+	s := S
+	if s == nil || s.cur == nil {
+		return
+	}
+	s.yield()
+	for w.n > 0 {
+		w.waiters = append(w.waiters, s.cur)
+		s.block("WaitGroup.Wait")
+	}
+	s.cur.vc.join(&w.vc)
+}
+
+// Map mirrors sync.Map for the operations generated code could plausibly use.
+type Map struct {
+	m  map[any]any
+	mu Mutex
+}
+
+func (m *Map) Load(k any) (any, bool) {
+	m.mu.Lock()
+	defer m.mu.Unlock()
+	v, ok := m.m[k]
+	return v, ok
+}
+
+func (m *Map) Store(k, v any) {
+	m.mu.Lock()
+	defer m.mu.Unlock()
+	if m.m == nil {
+		m.m = map[any]any{}
+	}
+	m.m[k] = v
+}
+
+func (m *Map) LoadOrStore(k, v any) (any, bool) {
+	m.mu.Lock()
+	defer m.mu.Unlock()
+	if m.m == nil {
+		m.m = map[any]any{}
+	}
+	if old, ok := m.m[k]; ok {
+		return old, true
+	}
+	m.m[k] = v
+	return v, false
+}
+
+func (m *Map) Delete(k any) {
+	m.mu.Lock()
+	defer m.mu.Unlock()
+	delete(m.m, k)
+}
